@@ -184,86 +184,188 @@ class Program:
             for ci in mod.classes.values():
                 ci.methods = _Methods(ci.methods, self, ci)
 
+    # private helpers that exist on the pinned tree and that rules talk about by name: never dissolved into their callers
+    KEEP_HELPERS = ("_parse_multipart", "_raise_on_disconnect", "_quote", "_build_url", "_parse_headers", "_parseparam")
+
     def _inline_generator_helpers(self) -> None:
-        """Normal form N8 (needs the call resolver, hence here and not in normal.py):
+        """Normal forms that need the call resolver (hence here and not in normal.py). Both dissolve a PRIVATE helper
+        (`_name`, undecorated or a staticmethod, positional parameters only, no nested definitions, not recursive, not one of
+        KEEP_HELPERS) into the statement that uses it; the arguments are evaluated once, in order, into fresh locals before the
+        body - exactly what the call does - and the helper's own locals get a prefix that cannot clash.
 
-            yield from self._helper(a, b)      ==>      _helper__p = a; _helper__q = b
-                                                        <body of _helper, parameters and locals renamed with the prefix>
+          N8   yield from self._gen(a, b)            ==>   _gen__p = a; _gen__q = b; <body of _gen>
+               (synchronous generator helper without `return`)
 
-        for a PRIVATE synchronous generator helper (`_name`, undecorated, no default-less surprises: positional parameters only,
-        no `return` statement, no nested definitions, not recursive) used in statement position. The arguments are evaluated
-        once, in order, before the body - exactly what the call does; the helper's locals get names that cannot clash."""
+          N9   x = self._h(a) | self._h(a) | return self._h(a)   (also awaited, for an `async def` helper)
+                                                     ==>   _h__p = a; <body of _h, `return E` -> `_h__ret = E`>; x = _h__ret
+               A helper whose only `return` is its last statement is spliced in directly; one with early returns (guard
+               clauses) is wrapped in a one-pass loop `for _h__once in (None,):` and `return E` becomes `_h__ret = E; break`
+               (allowed only when no `return` sits inside a loop, `try` or `with` of the helper)."""
         import copy
 
         def private(fi: FuncInfo) -> bool:
-            return fi.name.startswith("_") and not fi.name.startswith("__") and all(d in ("staticmethod",) for d in fi.decorators)
+            return fi.name.startswith("_") and not fi.name.startswith("__") and all(d in ("staticmethod",) for d in fi.decorators) and fi.name not in self.KEEP_HELPERS
 
         changed_mods = set()
         self.inlined_generators: Set[str] = set()
+
+        def simple_params(h: FuncInfo, call: ast.Call):
+            a = h.node.args
+            if a.vararg or a.kwarg or a.kwonlyargs or a.posonlyargs or any(isinstance(x, ast.Starred) for x in call.args) or any(k.arg is None for k in call.keywords):
+                return None
+            params = [x.arg for x in a.args]
+            is_method = h.cls is not None and "staticmethod" not in h.decorators
+            if is_method:
+                if not (isinstance(call.func, ast.Attribute) and isinstance(call.func.value, ast.Name) and call.func.value.id in ("self", "cls")):
+                    return None
+                recv_name, bind_params, self_param = call.func.value.id, params[1:], params[0]
+            else:
+                if not isinstance(call.func, (ast.Name, ast.Attribute)):
+                    return None
+                if isinstance(call.func, ast.Attribute) and not (isinstance(call.func.value, ast.Name) and call.func.value.id in ("self", "cls")):
+                    return None
+                recv_name, bind_params, self_param = None, params, None
+            ndef = len(a.defaults)
+            defaults = dict(zip(params[len(params) - ndef:], a.defaults))
+            given: Dict[str, ast.expr] = {}
+            if len(call.args) > len(bind_params):
+                return None
+            for pn, av in zip(bind_params, call.args):
+                given[pn] = av
+            for k in call.keywords:
+                if k.arg not in bind_params or k.arg in given:
+                    return None
+                given[k.arg] = k.value
+            order = []
+            for pn in bind_params:
+                if pn in given:
+                    order.append((pn, given[pn]))
+                elif pn in defaults:
+                    order.append((pn, copy.deepcopy(defaults[pn])))
+                else:
+                    return None
+            # keyword arguments are evaluated in call order, not parameter order: only accept when that is the same
+            if call.keywords and [pn for pn, _ in order if pn in given] != [pn for pn in list(bind_params[:len(call.args)]) + [k.arg for k in call.keywords]]:
+                return None
+            return recv_name, self_param, order
+
+        def returns_ok(h: FuncInfo):
+            """(kind, ok): kind 'tail' = a single return as last statement (or none); 'early' = returns under ifs only"""
+            rets = [x for x in walk_shallow(h.node) if isinstance(x, ast.Return)]
+            body = h.node.body
+            if not rets or (len(rets) == 1 and rets[0] is body[-1]):
+                return "tail"
+            for r in rets:
+                q = getattr(r, "_parent", None)
+                while q is not None and q is not h.node:
+                    if not isinstance(q, ast.If):
+                        return None
+                    q = getattr(q, "_parent", None)
+            return "early"
+
+        def rename(h: FuncInfo, recv_name, self_param, bind_params):
+            prefix = f"_{h.name.strip('_')}__"
+            locals_ = {x.id for x in ast.walk(h.node) if isinstance(x, ast.Name) and isinstance(x.ctx, (ast.Store, ast.Del))} | set(bind_params)
+            ren = {nm: prefix + nm for nm in locals_}
+            if self_param is not None:
+                ren[self_param] = recv_name
+            return prefix, ren
+
+        def body_copy(h: FuncInfo, ren):
+            body = [copy.deepcopy(st) for st in h.node.body if not (isinstance(st, ast.Expr) and isinstance(st.value, ast.Constant))]
+            for st in body:
+                for x in ast.walk(st):
+                    if isinstance(x, ast.Name) and x.id in ren:
+                        x.id = ren[x.id]
+            return body
+
+        def splice(site: ast.stmt, new_stmts: List[ast.stmt]) -> bool:
+            par = getattr(site, "_parent", None)
+            for fld in ("body", "orelse", "finalbody"):
+                blk = getattr(par, fld, None)
+                if isinstance(blk, list) and site in blk:
+                    i = blk.index(site)
+                    blk[i:i + 1] = new_stmts
+                    return True
+            return False
+
         for mod in self.modules.values():
             for fn in list(mod.all_funcs):
-                if isinstance(fn.node, ast.AsyncFunctionDef):
-                    continue
-                for _round in range(2):
-                    sites = []
-                    for n in walk_shallow(fn.node):
-                        if isinstance(n, ast.Expr) and isinstance(n.value, ast.YieldFrom) and isinstance(n.value.value, ast.Call):
-                            sites.append(n)
+                for _round in range(3):
                     did = False
-                    for site in sites:
-                        call = site.value.value
+                    for site in [n for n in walk_shallow(fn.node) if isinstance(n, (ast.Expr, ast.Assign, ast.AnnAssign, ast.Return))]:
+                        val = getattr(site, "value", None)
+                        if val is None:
+                            continue
+                        awaited = isinstance(val, ast.Await)
+                        inner = val.value if awaited else val
+                        is_yf = isinstance(inner, ast.YieldFrom) and isinstance(site, ast.Expr) and not awaited
+                        call = inner.value if is_yf else inner
+                        if not isinstance(call, ast.Call):
+                            continue
                         try:
                             h = self.resolve_call(fn, call)
                         except Exception:
                             h = None
-                        if not isinstance(h, FuncInfo) or h is fn or not private(h) or not h.is_generator() or isinstance(h.node, ast.AsyncFunctionDef):
+                        if not isinstance(h, FuncInfo) or h is fn or not private(h) or h.module is not mod and not private(h):
                             continue
-                        a = h.node.args
-                        if a.vararg or a.kwarg or a.kwonlyargs or a.posonlyargs or call.keywords or any(isinstance(x, ast.Starred) for x in call.args):
+                        if any(isinstance(x, (ast.FunctionDef, ast.AsyncFunctionDef, ast.Lambda, ast.ClassDef, ast.Global, ast.Nonlocal)) for x in ast.walk(h.node) if x is not h.node):
                             continue
-                        if any(isinstance(x, (ast.Return, ast.FunctionDef, ast.AsyncFunctionDef, ast.Lambda, ast.ClassDef, ast.Global, ast.Nonlocal)) for x in ast.walk(h.node) if x is not h.node):
+                        if any(isinstance(x, ast.Call) and self._same_fn(h, x) for x in ast.walk(h.node)):
                             continue
-                        params = [x.arg for x in a.args]
-                        args = list(call.args)
-                        is_method = h.cls is not None and "staticmethod" not in h.decorators
-                        if is_method:
-                            if not (isinstance(call.func, ast.Attribute) and isinstance(call.func.value, ast.Name) and call.func.value.id in ("self", "cls")):
+                        sp = simple_params(h, call)
+                        if sp is None:
+                            continue
+                        recv_name, self_param, order = sp
+                        prefix, ren = rename(h, recv_name, self_param, [pn for pn, _ in order])
+                        pre = [ast.copy_location(ast.Assign(targets=[ast.copy_location(ast.Name(id=ren[pn], ctx=ast.Store()), site)], value=av, type_comment=None), site) for pn, av in order]
+                        if is_yf:
+                            # ---- N8
+                            if not h.is_generator() or isinstance(h.node, ast.AsyncFunctionDef) or isinstance(fn.node, ast.AsyncFunctionDef) or any(isinstance(x, ast.Return) for x in ast.walk(h.node)):
                                 continue
-                            recv_name = call.func.value.id
-                            bind_params = params[1:]
-                            self_param = params[0]
+                            new_stmts = pre + body_copy(h, ren)
                         else:
-                            bind_params = params
-                            self_param = None
-                            recv_name = None
-                        ndef = len(a.defaults)
-                        if len(args) > len(bind_params) or len(args) < len(bind_params) - ndef:
-                            continue
-                        defaults = dict(zip(params[len(params) - ndef:], a.defaults))
-                        prefix = f"_{h.name.strip('_')}__"
-                        locals_ = {x.id for x in ast.walk(h.node) if isinstance(x, ast.Name) and isinstance(x.ctx, (ast.Store, ast.Del))} | set(bind_params)
-                        ren = {nm: prefix + nm for nm in locals_}
-                        if self_param is not None:
-                            ren[self_param] = recv_name
-                        pre = []
-                        for i, pn in enumerate(bind_params):
-                            val = args[i] if i < len(args) else copy.deepcopy(defaults[pn])
-                            pre.append(ast.copy_location(ast.Assign(targets=[ast.copy_location(ast.Name(id=ren[pn], ctx=ast.Store()), site)], value=val, type_comment=None), site))
-                        body = [copy.deepcopy(st) for st in h.node.body if not (isinstance(st, ast.Expr) and isinstance(st.value, ast.Constant))]
-                        for st in body:
-                            for x in ast.walk(st):
-                                if isinstance(x, ast.Name) and x.id in ren:
-                                    x.id = ren[x.id]
-                        new_stmts = pre + body
-                        par = getattr(site, "_parent", None)
-                        placed = False
-                        for fld in ("body", "orelse", "finalbody"):
-                            blk = getattr(par, fld, None)
-                            if isinstance(blk, list) and site in blk:
-                                i = blk.index(site)
-                                blk[i:i + 1] = new_stmts
-                                placed = True
-                        if placed:
+                            # ---- N9
+                            if h.is_generator() or isinstance(h.node, ast.AsyncFunctionDef) != awaited:
+                                continue
+                            if awaited and not isinstance(fn.node, ast.AsyncFunctionDef):
+                                continue
+                            if isinstance(site, (ast.Assign, ast.AnnAssign)):
+                                tgts = site.targets if isinstance(site, ast.Assign) else [site.target]
+                                if len(tgts) != 1:
+                                    continue
+                            kind = returns_ok(h)
+                            if kind is None:
+                                continue
+                            ret_name = prefix + "ret"
+                            body = body_copy(h, ren)
+                            init = ast.copy_location(ast.Assign(targets=[ast.copy_location(ast.Name(id=ret_name, ctx=ast.Store()), site)], value=ast.copy_location(ast.Constant(value=None), site), type_comment=None), site)
+                            if kind == "tail":
+                                if body and isinstance(body[-1], ast.Return):
+                                    last = body.pop()
+                                    body.append(ast.copy_location(ast.Assign(targets=[ast.Name(id=ret_name, ctx=ast.Store())], value=last.value if last.value is not None else ast.Constant(value=None), type_comment=None), last))
+                                    core = body
+                                else:
+                                    core = [init] + body
+                            else:
+                                class RT(ast.NodeTransformer):
+                                    def visit_Return(self_, node):
+                                        a1 = ast.copy_location(ast.Assign(targets=[ast.Name(id=ret_name, ctx=ast.Store())], value=node.value if node.value is not None else ast.Constant(value=None), type_comment=None), node)
+                                        return [a1, ast.copy_location(ast.Break(), node)]
+                                body = [x for st in body for x in (lambda r: r if isinstance(r, list) else [r])(RT().visit(st))]
+                                loop = ast.copy_location(ast.For(target=ast.Name(id=prefix + "once", ctx=ast.Store()), iter=ast.Tuple(elts=[ast.Constant(value=None)], ctx=ast.Load()), body=body or [ast.Pass()], orelse=[], type_comment=None), site)
+                                core = [init, loop]
+                            use = ast.copy_location(ast.Name(id=ret_name, ctx=ast.Load()), site)
+                            if isinstance(site, ast.Expr):
+                                tail = []
+                            elif isinstance(site, ast.Return):
+                                tail = [ast.copy_location(ast.Return(value=use), site)]
+                            elif isinstance(site, ast.Assign):
+                                tail = [ast.copy_location(ast.Assign(targets=site.targets, value=use, type_comment=None), site)]
+                            else:
+                                tail = [ast.copy_location(ast.AnnAssign(target=site.target, annotation=site.annotation, value=use, simple=site.simple), site)]
+                            new_stmts = pre + core + tail
+                        if splice(site, new_stmts):
                             self.inlined_generators.add(h.fq)
                             did = True
                             changed_mods.add(mod.name)
@@ -273,6 +375,12 @@ class Program:
                         break
         for name in changed_mods:
             set_parents(self.modules[name].tree)
+
+    def _same_fn(self, h: FuncInfo, call: ast.Call) -> bool:
+        try:
+            return self.resolve_call(h, call) is h
+        except Exception:
+            return False
 
     def _resolve_relative(self, mod: Module, level: int, target: Optional[str]) -> str:
         if level == 0:
